@@ -1,4 +1,4 @@
-CONSTANTS N = 3  Calls <- C1  Kinds <- KRR  Steps <- S30  MaxSend = 3  Reconn <- RTrue  Overlap = FALSE  KeepAlive = FALSE  PingNeutral = FALSE
+CONSTANTS N = 3  Calls <- C1  Kinds <- KRR  Steps <- S30  MaxSend = 3  Reconn <- RTrue  Overlap = FALSE  KeepAlive = FALSE  PingNeutral = FALSE  Faults = FALSE
 SPECIFICATION Spec
 CONSTRAINT SendBound
 INVARIANTS TypeOK RotationIsHealthy ProbeQueueSingle ProbesTargetBlocked FailuresCounted CallsGoSomewhere
